@@ -31,7 +31,8 @@ FLOORS = {"quick": {"streams_read": 100000, "exhaustive_cutsets": 2 ** 15 + 2 **
                     "corruptions": 400, "schedule_A": 12000, "schedule_B": 100000, "messages_compared": 100000,
                     "datagram_decoder_agreement": 2000, "streams_read_next_to_a_second_connection": 2000,
                     "streams_read_through_a_subclass": 10000,
-                    "streams_read_next_to_a_quiet_second_connection": 800}}
+                    "streams_read_next_to_a_quiet_second_connection": 800,
+                    "streams_with_long_pauses_between_chunks": 3000}}
 
 
 def expected_sequence(b: bytes):
@@ -231,11 +232,21 @@ def _read_alone(loop, reader, consume, chunks, schedule, results):
     else:
         task = loop.create_task(consume())
         pending = list(chunks)
+        # every fifth stream pauses once or twice on its way (a retransmission back-off, a slow producer): 7 s and 45 s of loop
+        # time between two chunks, wherever the chunk boundary happens to fall - time is no part of the framing
+        _WRAPPERS["b"] = _WRAPPERS.get("b", 0) + 1
+        pauses = {len(pending) // 2: 7.0, len(pending) // 3: 45.0} if _WRAPPERS["b"] % 5 == 0 and len(pending) > 1 else {}
+        if pauses:
+            _WRAPPERS["slow"] = _WRAPPERS.get("slow", 0) + 1
 
         def feed():
             if pending:
                 reader.feed_data(pending.pop(0))
-                loop.call_soon(feed)
+                gap = pauses.get(len(pending))
+                if gap and pending:
+                    loop.call_later(gap, feed)
+                else:
+                    loop.call_soon(feed)
             else:
                 reader.feed_eof()
 
@@ -281,6 +292,7 @@ def check(loop, H, total: bytes, cuts, schedule, ctx, replay, compare_datagram=F
                 stream_len=len(total), cuts=list(cuts)[:40]), replay)
     got = fix_eof(got, total, exp)
     ctx.count("streams_read")
+    ctx.count("streams_with_long_pauses_between_chunks", _WRAPPERS.pop("slow", 0))
     ctx.count("streams_read_through_a_subclass", _SUB.pop("n", 0))
     ctx.count("schedule_" + schedule)
     ctx.count("messages_compared", sum(1 for e in exp if e[0] == "msg"))
